@@ -14,7 +14,7 @@ CFG = {
                           "RpmVerif.C17.default_level_in_range", "RpmVerif.C17.default_of_every_type", "RpmVerif.C17.default_is_some_variant",
                           "RpmVerif.C17.step_total", "RpmVerif.C17.run_total", "RpmVerif.C17.build_total", "RpmVerif.C17.build_and_sign_total",
                           "RpmVerif.C17.build_total_needs_clock", "RpmVerif.C17.comp_variant_table"],
-    "trivial_branches": ["bad-start", "ts:unrepresentable", "meta"],
+    "trivial_branches": ["bad-start", "ts:unrepresentable", "meta:nul"],
     "rule": "ALL destinations over the alphabet {'/', '.', 'a'} up to length 8 (quick, 9 841 strings) / 11 (thorough, 265 720), all token strings over "
             "{'/', '.', '..', 'a', 'b.c'} up to 5 / 7 tokens, the former panic witnesses, long (5 000-byte names, 2 000 levels, 3 000 slashes), multi-byte, "
             "NUL-containing and blank destinations, 2·10^4 / 3·10^5 seeded token strings; each through PackageBuilder::with_file → build → write → parse "
@@ -24,7 +24,7 @@ CFG = {
             "child (`level`: ok | err | panic | abort | corrupt). source_date and add_changelog_entry with u32 / SystemTime / DateTime<Utc> / "
             "DateTime<FixedOffset> at −1 ns, 0, 2^31, 2^32−1(+0.999999999), 2^32, chrono MIN/MAX, i64 extremes, ±40 / ±2000 s windows and seeded instants "
             "(`tsset`). Capability text: all strings of up to 3 / 4 tokens over {cap_chown, cap_kill, all, cap_bogus, ',', '=', '+', '-', e, i, p, x, ' '} plus "
-            "17 hand-picked ones (`capsset`, setter vs FileCaps::from_str). 20 metadata strings through every string setter (`meta`). "
+            "17 hand-picked ones (`capsset`, setter vs FileCaps::from_str). 20 metadata strings through every string setter, epoch, all nine scriptlet setters (from &str / String / Scriptlet with flags and interpreter), all eight dependency setters (through eight constructors), a changelog entry and a file owner / group / link, built through build (even length) or build_and_sign (odd), written, re-parsed and read back field by field (`meta`: `ok rt=all` or the fields that did not come back; a text with a NUL comes back cut and is not predicted). "
             "`wfile`: one FileOptions::new(dest).<setters> chain + with_file on a source the harness prepares — a regular file, a symbolic link to one, a FIFO (fed by "
             "a thread), a directory, a missing path; 14 permission words incl. set-uid / set-gid / sticky / 0 / 0o7777 (and random 12-bit words); 16 modification times "
             "from −2^31 s over −1 ns, 0, 2^31, 2^32−1(+0.999999999 s), 2^32 to 1.5·10^10 s (set with futimens, read back before use); 49 option chains (every is_* setter, "
@@ -34,7 +34,7 @@ CFG = {
             "(io | TimestampConv | InvalidDestinationPath | InvalidCapabilities) or the read-back mode word, cpio c_mode, mtime, flags, owner, group, link, caps, verify "
             "flags, size. `leveld`: compression(CompressionType::T) for every T and no compression() call at all (also on the build without bzip2), observing "
             "PAYLOADCOMPRESSOR / PAYLOADFLAGS. A case is trivial when "
-            "the destination does not start with '/' or './', when a timestamp value cannot be constructed, or a `meta` case; distinct = distinct request lines",
+            "the destination does not start with '/' or './', when a timestamp value cannot be constructed, or a `meta` text containing a NUL; distinct = distinct request lines",
     "exhaustive": True,
     "shards": {"quick": 4, "thorough": 16},
     "trusted_base": ["Unix std::path (components, parent, file_name, strip_prefix, join) is modelled on byte strings (Model/Path.lean) and compared function by "
